@@ -123,6 +123,35 @@ def dump (sch : Schema) (s : Store) : Json :=
     ("pkidx", .arr pk.toArray), ("idx", .arr si.toArray), ("cidx", .arr ci.toArray), ("modcoll", .arr mc.toArray),
     ("modified", toJson s.modified)]
 
+/-- executable form of the hypothesis `WF` of the theorems (index entries are enumerated through the ghost list of all keys ever inserted) -/
+def saveOkB (s : Store) : Bool :=
+  (List.range s.n).all fun o =>
+    let r := s.row o
+    (match r.savePos with
+     | some p => s.toSave[p]? == some (some o)
+     | none => true) &&
+    (if r.status = .inserted || r.status = .updated then r.savePos.isNone else true)
+
+def idxOkB (sch : Schema) (s : Store) : Bool :=
+  let live := fun (o : ObjId) => decide (o < s.n) && !(s.row o).status.isDel
+  let attrs := List.range sch.attrs.length
+  let keys := List.range sch.ckeys.length
+  ((List.range s.n).all fun o => !live o ||
+    ((attrs.all fun a => match (s.row o).val a, sch.decl a with
+        | some u, some d => !d.unique || s.idx a u == some o
+        | _, _ => true) &&
+     (keys.all fun k => match tuple ((sch.keyAttrs k).map (s.row o).val) with
+        | some us => s.cidx k us == some o
+        | none => true))) &&
+  ((dedup s.seen).all fun key => match key with
+    | .simple a v => (match s.idx a v with
+        | some o => !live o || (s.row o).val a == some v
+        | none => true)
+    | .comp k vs => (match s.cidx k vs with
+        | some o => !live o || tuple ((sch.keyAttrs k).map (s.row o).val) == some vs
+        | none => true)
+    | .pk _ _ => true)
+
 def handle (j : Json) : Except String Json := do
   let op ← argStr j "op"
   match op with
@@ -135,7 +164,7 @@ def handle (j : Json) : Except String Json := do
           | .flush _ => 0
           | _ => (run1 sch op { store := acc.1 }).st.trail.length
         (o.store, Json.mkObj [("err", match o.err with | none => Json.null | some e => Json.str (errName e)),
-                               ("trail", toJson tl),
+                               ("trail", toJson tl), ("wf", toJson (saveOkB o.store && idxOkB sch o.store)),
                                ("obs", dump sch o.store)] :: acc.2)) (({} : Store), [])
       pure (Json.mkObj [("steps", .arr outs.reverse.toArray)])
   | _ => throw s!"unknown op {op}"
